@@ -1,5 +1,6 @@
 import NeoFS.Base.Line
 import NeoFS.Model.Balance
+import NeoFS.Model.BalanceSystem
 /-! Line-protocol driver for the Balance model (properties C01, C02, C09). -/
 open NeoFS NeoFS.Balance
 
@@ -50,13 +51,8 @@ def stepLine (s : State) (line : String) : State × List String :=
       (s', [s!"{o} | {fmtState s'}"])
   | _ => (s, ["bad-line"])
 
-/-- driver state: the Balance model state and (glue, modelled by C06) Netmap's epoch counter, needed only for the
-`nmtick` operation: Netmap.newEpoch(e) FAULTs unless Alphabet-witnessed and `e` exceeds its current epoch, otherwise
-it calls `newEpoch(e)` on the subscribed Balance contract in the same transaction -/
-structure DState where
-  s : State
-  nmEpoch : Int
-
+/-- the harness operation `nmtick` is a real `netmap.newEpoch(e)` transaction on a chain where Balance is subscribed: the
+driver runs the composed model `NeoFS.BalanceSystem` (Netmap's epoch gate + the nested Balance tick) -/
 def fmtOut (s' : State) (out : Option (Option Bool × List Event)) : String :=
   let o := match out with
     | none => "FAULT"
@@ -65,21 +61,21 @@ def fmtOut (s' : State) (out : Option (Option Bool × List Event)) : String :=
       s!"HALT ret={rs} ev=[{joinWith ";" (ev.map evStr)}]"
   s!"{o} | {fmtState s'}"
 
-def stepLineD (d : DState) (line : String) : DState × List String :=
+def stepLineD (d : BalanceSystem.State) (line : String) : BalanceSystem.State × List String :=
   match words line with
-  | "case" :: _ => (⟨NeoFS.Balance.init, 0⟩, [line.trimAscii.toString])
+  | "case" :: _ => (BalanceSystem.init, [line.trimAscii.toString])
   | ["op", sig, caller, "nmtick", e] =>
     match parseInt? e with
     | none => (d, ["bad-op"])
     | some e =>
-      let env := parseEnv sig caller
-      if env.alphabet && decide (d.nmEpoch < e) then
-        let (s', out) := invoke d.s env (.newEpoch e)
-        match out with
-        | none => (d, [fmtOut d.s none])
-        | some _ => (⟨s', e⟩, [fmtOut s' out])
-      else (d, [fmtOut d.s none])
-  | _ =>
-    let (s', outs) := stepLine d.s line
-    (⟨s', d.nmEpoch⟩, outs)
-def main : IO Unit := runDriver (⟨NeoFS.Balance.init, 0⟩ : DState) stepLineD
+      let (d', out) := BalanceSystem.invoke d (parseEnv sig caller) (.nmtick e)
+      (d', [fmtOut d'.bal out])
+  | "op" :: sig :: caller :: rest =>
+    match parseOp rest with
+    | none => (d, ["bad-op"])
+    | some op =>
+      let (d', out) := BalanceSystem.invoke d (parseEnv sig caller) (.bal op)
+      (d', [fmtOut d'.bal out])
+  | [] => (d, [])
+  | _ => (d, ["bad-line"])
+def main : IO Unit := runDriver BalanceSystem.init stepLineD
